@@ -21,13 +21,15 @@ struct Val {
     Val(const Val &o) : v(o.v), moved(o.moved) { liveValues++; }
     Val(Val &&o) noexcept : v(o.v), moved(o.moved) { o.moved = true; liveValues++; }
     Val &operator=(Val &&o) noexcept { v = o.v; moved = o.moved; o.moved = true; return *this; }
-    ~Val() { liveValues--; }
+    virtual ~Val() { liveValues--; }
 };
+struct DVal : Val { explicit DVal(int x) : Val(x) {} };   // for the converting finish(U&&) overload
 struct Token { Token() { liveClosures++; } ~Token() { liveClosures--; } };
 
 struct Inner { char kind; int arg; };  // 't' thenI ctx | 'd' destroyCtx c | 'x' drop every handle
 
-template<typename T> struct Env {
+// Conv: finish through the converting overload finish(U&&) with U != T (int -> Val, unique_ptr<DVal> -> unique_ptr<Val>)
+template<typename T, bool Conv = false> struct Env {
     std::vector<QXmppPromise<T>> promises;
     std::vector<QXmppTask<T>> tasks;
     std::map<int, QObject *> ctx;
@@ -123,8 +125,8 @@ template<typename T> struct Env {
                 bool destroyedAtFinish = pendingCtx != 0 && destroyed.count(pendingCtx);
                 // finish needs a promise: promises are dropped last, so one exists
                 if constexpr (std::is_void_v<T>) promises.front().finish();
-                else if constexpr (std::is_same_v<T, Val>) promises.front().finish(Val(v));
-                else promises.front().finish(std::make_unique<Val>(v));
+                else if constexpr (std::is_same_v<T, Val>) { if constexpr (Conv) promises.front().finish(int(v)); else promises.front().finish(Val(v)); }
+                else { if constexpr (Conv) promises.front().finish(std::make_unique<DVal>(v)); else promises.front().finish(std::make_unique<Val>(v)); }
                 // property (at least once): the continuation attached last before finish runs at finish if its context is alive
                 if (pendingK >= 0 && pendingCtx != 0 && !destroyedAtFinish) {
                     if (ranCount[pendingK] != 1) oracleFail("C13:continuation-not-run", history); else oraclePass()++;
@@ -161,9 +163,9 @@ template<typename T> struct Env {
     ~Env() { tasks.clear(); promises.clear(); for (auto &kv : ctx) delete kv.second; }
 };
 
-template<typename T> static void runSeq(const char *kind, const std::vector<std::string> &ops) {
+template<typename T, bool Conv = false> static void runSeq(const char *kind, const std::vector<std::string> &ops) {
     {
-        Env<T> env;
+        Env<T, Conv> env;
         env.promises.emplace_back();
         corr(std::string("reset ") + kind, "ok");
         for (auto &op : ops) corr(op, env.apply(op));
@@ -176,6 +178,8 @@ static void runAllKinds(const std::vector<std::string> &ops) {
     runSeq<void>("void", ops);
     runSeq<Val>("value", ops);
     runSeq<std::unique_ptr<Val>>("value", ops);
+    runSeq<Val, true>("value", ops);
+    runSeq<std::unique_ptr<Val>, true>("value", ops);
 }
 
 static void enumerate(const std::vector<std::string> &alpha, int depth, std::vector<std::string> &cur) {
